@@ -153,6 +153,10 @@ impl Recoverer {
             if m.cells[f] != FREE {
                 continue;
             }
+            // frames of an in-flight free may be in either state
+            if touched(f, 0) {
+                continue;
+            }
             if a.stats_at(FrameId(f), 0).free_frames == 0 {
                 leaked.push(f);
             }
